@@ -347,6 +347,13 @@ def wrap_literals(obj, kind):
 def behav_task(p, cfg, rec):
     mk = cfg['mk']
     refusal = cfg.get('refusal', False)
+    if cfg.get('prime') is not None:
+        # another instance of the SAME class with a different constructor constant is transpiled first, in the same process
+        with quiet():
+            try:
+                generate(cfg['prime'](py4hw.HWSystem()))
+            except Exception:
+                pass
     with quiet():
         s = py4hw.HWSystem()
         try:
@@ -576,12 +583,17 @@ def tasks_for(tier, seed):
     d, progs = write_programs(tier, seed)
     if d not in sys.path:
         sys.path.insert(0, d)
-    for name, mod, kind, meta in progs:
-        def mk(s, mod=mod, meta=meta):
+    for j, (name, mod, kind, meta) in enumerate(progs):
+        def mk(s, mod=mod, meta=meta, dk=0):
             m = importlib.import_module(mod)
             wires = [s.wire(n, w) for n, w in meta['ins'] + meta['outs']]
-            return m.P(s, 'dut', *wires, meta['k'])
-        t.append((name, behav_task, {'mk': mk, 'refusal': meta.get('refusal', False), 'wide': meta.get('wide', False)}))
+            return m.P(s, 'dut', *wires, meta['k'] + dk)
+        prime = None
+        if j % 2 and not meta.get('refusal', False):
+            # every other program: a sibling instance with another constructor constant goes through the transpiler first
+            prime = (lambda s, mk=mk: mk(s, dk=3))
+            name += ' [after a sibling instance with another constructor constant]'
+        t.append((name, behav_task, {'mk': mk, 'refusal': meta.get('refusal', False), 'wide': meta.get('wide', False), 'prime': prime}))
     return t, d
 
 
